@@ -1,13 +1,17 @@
 #!/venv/bin/python
 """Run every claimed check against every kept seed and record which rules fire.
-A seed is applied to /repo's working tree (and reverted straight afterwards) when it still applies to HEAD;
-otherwise -- a later fix: commit changed the same lines -- it is applied in a scratch worktree of the commit it
-was written against (verify.json: base) and the checks are pointed at that tree with --root.
-Writes seeded/<id>/checks.json and prints one line per seed."""
-import glob, json, os, re, subprocess, sys, tempfile, shutil
+Each seed is applied in a scratch git worktree of /repo (never /repo's own working tree): at HEAD when the patch
+still applies there, otherwise -- a later fix: commit changed the same lines or removed the precondition -- at the
+commit it was written against (verify.json: base / written_against).  The checks are pointed at that tree with
+--root and run before and after `git apply`; only the violations the patch adds count (a base tree predates later
+fix: commits and still has their defects).
+Seeds are processed in parallel.  Writes seeded/<id>/checks.json and prints one line per seed.
+usage: check_all_seeds.py [-j N] [seed ids...]"""
+import glob, json, os, re, subprocess, sys, tempfile, shutil, threading
+from concurrent.futures import ThreadPoolExecutor
 
 IDS = "C01 C03 C04 C05 C06 C07 C09 C10 C12 C13 C14 C16 C17 C19 C20".split()
-# bases the seeds of each campaign were written against, when verify.json does not say
+# base the round-1 seeds were written against, when verify.json does not say
 DEFAULT_BASE = "fcd760f12"
 
 
@@ -16,11 +20,10 @@ def sh(cmd, cwd=None):
     return p.returncode, p.stdout
 
 
-def run_checks(root):
+def run_checks(root, ids=IDS):
     fired = {}
-    for pid in IDS:
+    for pid in ids:
         rc, out = sh(["/venv/bin/python", "-m", "c3static", "check", pid, "--no-write", "--root", root], cwd="/verif")
-        # violation keys (rule|module::function|construct) are printed on the line after each violation
         # a violation prints its location/detail line, then its key (rule|module::function|construct); line numbers are
         # dropped so that a shifted but otherwise identical violation is not counted as new
         pairs = re.findall(r"^  violation \S+ at [^:]+:\d+(?: / [^:]+:\d+)?: (.*)\n    key: (R[\d.]+b?\|.*)$", out, flags=re.M)
@@ -32,67 +35,73 @@ def run_checks(root):
     return fired
 
 
+_before_cache = {}
+_lock = threading.Lock()
+_git = threading.Lock()
+
+
+def one(d):
+    name = os.path.basename(d)
+    patch = f"{d}/patch.diff"
+    prop = name.split("-")[0]
+    vj = {}
+    try:
+        vj = json.load(open(f"{d}/verify.json"))
+    except Exception:
+        pass
+    vbase = vj.get("base", "HEAD")
+    rc, _ = sh(["git", "-C", "/repo", "apply", "--check", patch])
+    if rc == 0 and vbase == "HEAD":
+        base, where = "HEAD", "HEAD"
+    else:
+        base = vbase if vbase != "HEAD" else vj.get("written_against", DEFAULT_BASE)
+        where = base
+    wt = tempfile.mkdtemp(prefix="wt_seedchk_", dir="/tmp")
+    os.rmdir(wt)
+    try:
+        with _git:
+            rc, o = sh(["git", "-C", "/repo", "worktree", "add", "-q", "--detach", wt, base])
+        assert rc == 0, o
+        commit = sh(["git", "-C", wt, "rev-parse", "HEAD"])[1].strip()
+        with _lock:
+            have = commit in _before_cache
+        if not have:
+            b = run_checks(wt)
+            with _lock:
+                _before_cache.setdefault(commit, b)
+        before = _before_cache[commit]
+        rc, o = sh(["git", "apply", patch], cwd=wt)
+        assert rc == 0, f"{name}: patch does not apply to {base}: {o}"
+        after = run_checks(wt)
+        fired = {}
+        for pid, rules in after.items():
+            new = [r for r in rules if r not in before.get(pid, [])]
+            if new:
+                fired[pid] = new
+    finally:
+        with _git:
+            sh(["git", "-C", "/repo", "worktree", "remove", "--force", wt])
+        shutil.rmtree(wt, ignore_errors=True)
+    json.dump({"seed": name, "applied_to": where, "fired": fired}, open(f"{d}/checks.json", "w"), indent=1)
+    own = prop in fired and fired[prop] != ["ANALYSIS-ERROR"]
+    short = {pid: sorted({k.split("|")[0] for k in ks}) for pid, ks in fired.items()}
+    return name, where, own, short
+
+
 def main():
-    only = sys.argv[1:]
-    rc, out = sh(["git", "-C", "/repo", "status", "--porcelain"])
-    assert not out.strip(), "/repo is dirty"
+    args = sys.argv[1:]
+    jobs = 6
+    if args and args[0] == "-j":
+        jobs = int(args[1])
+        args = args[2:]
+    dirs = [d for d in sorted(glob.glob("/verif/seeded/C*-*")) if not args or os.path.basename(d) in args]
     bad = 0
-    for d in sorted(glob.glob("/verif/seeded/C*-*")):
-        name = os.path.basename(d)
-        if only and name not in only:
-            continue
-        patch = f"{d}/patch.diff"
-        prop = name.split("-")[0]
-        rc, _ = sh(["git", "-C", "/repo", "apply", "--check", patch])
-        where = "HEAD"
-        vbase = "HEAD"
-        try:
-            vbase = json.load(open(f"{d}/verify.json")).get("base", "HEAD")
-        except Exception:
-            pass
-        if rc == 0 and vbase == "HEAD":
-            sh(["git", "-C", "/repo", "apply", patch])
-            try:
-                fired = run_checks("/repo")
-            finally:
-                sh(["git", "-C", "/repo", "checkout", "--", "."])
-        else:
-            base = DEFAULT_BASE
-            try:
-                vj = json.load(open(f"{d}/verify.json"))
-                base = vj.get("base", base)
-                if base == "HEAD":
-                    # verified at the HEAD of its day; the commit it was written against is recorded separately
-                    base = vj.get("written_against", DEFAULT_BASE)
-            except Exception:
-                pass
-            if base == "HEAD":
-                base = DEFAULT_BASE
-            wt = tempfile.mkdtemp(prefix="wt_seedchk_", dir="/tmp")
-            os.rmdir(wt)
-            where = base
-            try:
-                rc, o = sh(["git", "-C", "/repo", "worktree", "add", "-q", "--detach", wt, base])
-                assert rc == 0, o
-                before = run_checks(wt)
-                rc, o = sh(["git", "apply", patch], cwd=wt)
-                assert rc == 0, f"{name}: patch applies neither to HEAD nor to {base}: {o}"
-                after = run_checks(wt)
-                # only what the patch adds (the base tree predates later fix: commits and has their defects)
-                fired = {}
-                for pid, rules in after.items():
-                    new = [r for r in rules if r not in before.get(pid, [])]
-                    if new:
-                        fired[pid] = new
-            finally:
-                sh(["git", "-C", "/repo", "worktree", "remove", "--force", wt])
-                shutil.rmtree(wt, ignore_errors=True)
-        json.dump({"seed": name, "applied_to": where, "fired": fired}, open(f"{d}/checks.json", "w"), indent=1)
-        own = prop in fired and fired[prop] != ["ANALYSIS-ERROR"]
-        short = {pid: sorted({k.split("|")[0] for k in ks}) for pid, ks in fired.items()}
-        print(f"{name:7s} on {where:10s} own={'yes' if own else 'NO '} fired={short}")
-        if not own:
-            bad += 1
+    with ThreadPoolExecutor(max_workers=jobs) as ex:
+        for name, where, own, short in ex.map(one, dirs):
+            print(f"{name:7s} on {where:10s} own={'yes' if own else 'NO '} fired={short}", flush=True)
+            if not own:
+                bad += 1
+    print(f"{len(dirs)} seeds, {bad} not reported under their own property")
     return 1 if bad else 0
 
 
